@@ -67,7 +67,11 @@ FrameJudge(e, pre, sr) ==
 JudgeStep(e, pre) ==
   LET sr   == Step(pre)
       subj == Subject(pre, e.act)
-      ok   == ~Crashed(e) /\ Matches(sr.res, e.post) /\ e.ret = sr.done
+      \* a step the specification leaves unfired (missing operand, failed documented guard) is free in how many of its
+      \* operands it has consumed (C10: "may at most have consumed operands it had already taken"): any post-state
+      \* within the unfired clause of the frame condition is accepted, not only the one the implementation produces today
+      lax  == sr.kind = "instr" /\ ~sr.res.fired /\ ~Crashed(e) /\ FrameOK(pre.exec[1].v, PopN(pre, "exec", 1), e.post, FALSE)
+      ok   == ~Crashed(e) /\ (Matches(sr.res, e.post) \/ lax) /\ e.ret = sr.done
       dev  == IF ok THEN "" ELSE FirstDev(DevStep(pre), e)
   IN [v |-> IF ok THEN "ok" ELSE IF dev # "" THEN "dev" ELSE IF Crashed(e) THEN "crash" ELSE "mismatch",
       subj |-> subj, owner |-> Owner(subj), dev |-> dev,
